@@ -78,6 +78,7 @@ def run_property(pid, tier="quick", seed=0, only=None, verbose=False, do_bounded
             continue
         res = verify.run_contract(con, timeout, verbose=verbose)
         con._base_discharged = {k for k, o in res.obligations.items() if o["status"] == "unsat"}
+        con._base_all = set(res.obligations)
         funcs.update(res.functions)
         prims |= res.prims
         solver_time += sum(o["time_s"] for o in res.obligations.values())
